@@ -440,6 +440,14 @@ Theorem C19_convex_hull_label_write_bound_as_written : forall M m pts slack, M *
 Proof. exact HullC19Safe.hull_label_write_bound_as_written. Qed.
 Print Assumptions C19_convex_hull_label_write_bound_as_written.
 
+(* ... and for the whole batch kernel as written (wrapped turn test, wrapped sentinel, the overwrite branch of
+   the as-written walk): inside the bound no requested label's rows are written at or beyond pixidx *)
+Theorem C19_convex_hull_write_bound_as_written : forall M ijv indexes, M * M < 2147483648 ->
+  (forall x, In x ijv -> HullWrap.inbox M (Hull.r_pt x)) -> PreC19.kernel_pre_hull ijv indexes = true ->
+  snd (HullW.convex_hull_ijv_w ijv indexes) = false.
+Proof. exact HullC19Safe.hull_write_bound_as_written. Qed.
+Print Assumptions C19_convex_hull_write_bound_as_written.
+
 Theorem C19_reexp_C02_wrap_transfer : ltac:(let t := type of Centro.Props.C02.C02_wrap_transfer in exact t).
 Proof. exact Centro.Props.C02.C02_wrap_transfer. Qed.
 Print Assumptions C19_reexp_C02_wrap_transfer.
